@@ -244,6 +244,53 @@ func main() {
 			}
 		}
 	}
+	// Three clients (thorough): all multisets of three single-step programs on mocktikv, P=2.
+	if run.Thorough() {
+		for _, bk := range common.Backends() {
+			if bk.Name != "mocktikv" {
+				continue
+			}
+			for _, m := range bk.Modes {
+				steps := optSteps()
+				if m.Pessimistic {
+					steps = pessSteps()
+				}
+				ps := programs(steps, 1)
+				for _, lo := range layouts {
+					for i := range ps {
+						for j := i; j < len(ps); j++ {
+							for k := j; k < len(ps); k++ {
+								if !(collide(ps[i], ps[j]) || collide(ps[i], ps[k]) || collide(ps[j], ps[k])) {
+									continue
+								}
+								bk, m, lo, pa, pb, pc := bk, m, lo, ps[i], ps[j], ps[k]
+								name := fmt.Sprintf("%s/%s/%s/P2/3clients: %s || %s || %s", bk.Name, lo.name, m, pa.name, pb.name, pc.name)
+								mk := func() *txnh.TxnScenario {
+									sc := &txnh.TxnScenario{ID: name, NewBackend: func() txnh.Backend { return bk.New(lo.splits) }, Keys: keys,
+										Progs: [][]txnh.Program{{{Mode: m, Ops: pa.ops}}, {{Mode: m, Ops: pb.ops}}, {{Mode: m, Ops: pc.ops}}}}
+									sc.SetupFn = func(s *txnh.TxnScenario) { common.SeedKey(s, "a", "base") }
+									sc.CheckFn = func(s *txnh.TxnScenario, x *sched.Exec) []sched.Violation {
+										t := txnh.ReadTruth(s.W.B, s.Keys)
+										t.Splits, t.Log = lo.splits, s.W.Log()
+										return txnh.AuditSI(s.H, t)
+									}
+									return sc
+								}
+								specs[name] = mk()
+								jobs = append(jobs, sched.Job{Name: name, Run: func(dl time.Time) sched.Report {
+									sc := mk()
+									x := &sched.Explorer{Sc: sc, B: sched.Bounds{P: 2, F: 0, Horizon: 500, EarlyTimers: true, Deadline: dl}}
+									x.Outcome = func(*sched.Exec) string { return sc.OutcomeString() }
+									return x.Explore(false)
+								}})
+							}
+						}
+					}
+				}
+			}
+		}
+		suiteDesc = append(suiteDesc, "mocktikv 3 clients depth(1,1,1) P=2")
+	}
 	// Focus suite: a two-key writer spanning two regions against readers that read both keys in either
 	// order, with two preemptions: the shape in which a commit timestamp that ignores part of the prewrite
 	// answers (min-commit-ts of a secondary batch, a pushed min-commit-ts) tears a reader's snapshot.
